@@ -1,41 +1,122 @@
 ---- MODULE PoolFork ----
 (* C18, last clause: after a fork switch the pool holds the abandoned fork's transactions that are not on the new
-   fork, and none that are.  Engine side: DPoVP.saveNewBlock / onCurrentChanged (chain/consensus/dpovp.go) with
-   TxGuard.GetTxsByBranch.  Blocks are 1..NB with parent[b] < b; block b carries the transactions txs[b]; a
-   transaction occurs at most once on any branch (else the block would be a replay, C04).  The node is an observer
-   and receives no confirms, so nothing becomes stable and every fork stays alive.  Every transaction of the universe
-   is pending when the run starts. *)
+   fork, and none that are.  Engine side: DPoVP.saveNewBlock / InsertConfirms / onCurrentChanged / onStableChanged
+   (chain/consensus/dpovp.go) with TxGuard.GetTxsByBranch / ExistTx / DelOldBlocks (chain/txpool/tx_guard.go).
+
+   UNIVERSE (chosen once in Init).  Blocks are 1..NB with parent[b] < b (G = 0 is genesis); block b carries the
+   transactions txs[b]; a transaction occurs at most once on any branch (else the block would be a replay, C04).
+   TIME.  Block times come from NE epochs that lie more than the maximum transaction lifetime (30 min) apart:
+   ep[b] is the epoch of block b, never smaller than its parent's (a chain that stalled stamps the next block a
+   whole epoch later).  Every transaction t has an expiration in epoch TxEp[t]; a block may only carry transactions
+   whose expiration is within [block time, block time + lifetime], i.e. of its own epoch.  `now` is the epoch of the
+   latest block time the node has seen: the pool is always asked for the transactions that are pending at that
+   time (TxPool.GetTxs(now) drops what is expired), so transactions of an earlier epoch are gone for good once a
+   block of a later epoch arrived, and the clause is about the live ones:
+
+        after every InsertBlock / InsertConfirms:   pool = Live(now) \ OnChain(head)
+
+   STABLE.  ND deputies, a block is stable with Q = ceil(2 ND / 3) signers, the miner included; the node is an
+   observer and never signs.  A block may arrive carrying enough confirms (c = 1: it becomes stable inside the same
+   saveNewBlock that stores it, siblings of the stable chain are pruned from the store and the head may have to
+   leave a fork that was cut), or the confirms arrive later in a packet of their own (InsertConfirms).  conf is the
+   set of blocks stored with enough confirms.
+
+   MECHANISM (what the engine does to the pool, so that the clause is a checked invariant of the design and not a
+   definition): cache = the blocks held by the TxGuard.  Every stored block enters it (SaveBlock); when the stable
+   block moves, the blocks more than a lifetime older than the new stable block leave it (DelOldBlocks): those of
+   an earlier epoch.  A head change to a child removes the child's transactions; any other head change asks the
+   guard for the two branches down to the common ancestor (GetTxsByBranch) - when one of their blocks is not cached
+   the pool is left alone -, adds the abandoned branch's transactions and then removes the new branch's; a block
+   that does not change the head adds its transactions that the guard does not find on the current fork.
+   PruneFirst = FALSE is the engine as designed: the guard is pruned AFTER the head change was handled, so both
+   branches (they descend from the old stable block) are still cached.  PruneFirst = TRUE is the negative control:
+   pruning first loses the pool update of a fork switch that comes with a stable change across epochs.
+
+   Every transaction of the universe is pending when the run starts. *)
 EXTENDS Naturals, FiniteSets, TLC
-CONSTANTS NB, ND, Tx
+CONSTANTS NB, ND, NE, Tx, TxEp, PruneFirst
 Block == 1..NB
 G == 0
 Q == (2 * ND + 2) \div 3
-VARIABLES parent, txs, known, head, pool
-vars == <<parent, txs, known, head, pool>>
+Epoch == 0..(NE - 1)
+VARIABLES parent, txs, ep,              \* the universe
+          known, conf, stable, head,    \* the node's store: stable chain + unconfirmed tree
+          cache, now, pool
+vars == <<parent, txs, ep, known, conf, stable, head, cache, now, pool>>
 RECURSIVE Anc(_)
 Anc(b) == IF b = G THEN {G} ELSE {b} \cup Anc(parent[b])
 H(b) == Cardinality(Anc(b)) - 1
-OnChain(b) == UNION {txs[x] : x \in Anc(b) \ {G}}
+Ep(b) == IF b = G THEN 0 ELSE ep[b]
+TxsOf(S) == UNION {txs[x] : x \in S \ {G}}
+OnChain(b) == TxsOf(Anc(b))
+Live(n) == {t \in Tx : TxEp[t] >= n}
+Max(a, b) == IF a >= b THEN a ELSE b
 NoReplay(p, t) == \A b \in Block : LET RECURSIVE A(_)
                                        A(x) == IF x = G THEN {G} ELSE {x} \cup A(p[x])
                                    IN \A x, y \in A(b) \ {G} : x # y => t[x] \cap t[y] = {}
+EpOK(p, e) == \A b \in Block : e[b] >= (IF p[b] = G THEN 0 ELSE e[p[b]])    \* time never runs backwards on a branch
+TxsOK(p, e, t) == /\ \A b \in Block : \A x \in t[b] : TxEp[x] = e[b]       \* expiration within the carrying block's lifetime window
+                  /\ NoReplay(p, t)
 Init == /\ parent \in {f \in [Block -> Block \cup {G}] : \A b \in Block : f[b] < b}
-        /\ txs \in [Block -> {s \in SUBSET Tx : Cardinality(s) <= 1}]
-        /\ NoReplay(parent, txs)
-        /\ known = {G} /\ head = G /\ pool = Tx
-Best(S) == CHOOSE x \in S : \A y \in S : H(x) > H(y) \/ (H(x) = H(y) /\ x <= y)
-\* ForkManager.UpdateFork with the stable block at genesis
-NewHead(b, kn) == IF parent[b] = head THEN b
-                  ELSE LET cand == Best(kn \ {G}) IN
-                       IF H(cand) > H(head) /\ H(cand) % Q = 0 THEN cand ELSE head
-InsertBlock(b) ==
-  /\ b \notin known /\ parent[b] \in known
-  /\ known' = known \cup {b}
-  /\ head' = NewHead(b, known \cup {b})
-  /\ pool' = Tx \ OnChain(head')          \* what onCurrentChanged / AddTxs of side-fork blocks must leave behind
-  /\ UNCHANGED <<parent, txs>>
-Next == \E b \in Block : InsertBlock(b)
+        /\ ep \in {e \in [Block -> Epoch] : EpOK(parent, e)}
+        /\ txs \in {t \in [Block -> {s \in SUBSET Tx : Cardinality(s) <= 1}] : TxsOK(parent, ep, t)}
+        /\ known = {G} /\ conf = {} /\ stable = G /\ head = G
+        /\ cache = {G} /\ now = 0 /\ pool = Tx
+\* ---- store.ChainDatabase.SetStableBlock, ForkManager (as in Consensus.tla) ----
+Unconf(kn, st) == {b \in kn : st \in Anc(b) /\ b # st}
+Prune(kn, st) == {b \in kn : b \in Anc(st) \/ st \in Anc(b)}
+Best(S, dflt) == IF S = {} THEN dflt
+                 ELSE CHOOSE x \in S : \A y \in S : H(x) > H(y) \/ (H(x) = H(y) /\ x <= y)     \* ChooseNewFork
+NewHead(b, kn, st) ==                                                                            \* UpdateFork
+  LET un == Unconf(kn, st) IN
+  IF head \notin un THEN Best(un, st)
+  ELSE IF parent[b] = head THEN b
+  ELSE LET cand == Best(un, st) IN
+       IF H(cand) > H(head) /\ (H(cand) - H(st)) % Q = 0 THEN cand ELSE head
+\* ---- TxGuard ----
+Expire(ca, st) == {x \in ca : Ep(x) >= Ep(st)}                            \* DelOldBlocks(newStable.Time)
+Exist(h, t, ca) == \E x \in (Anc(h) \ {G}) \cap ca : t \in txs[x]          \* ExistTx(current, tx)
+\* ---- DPoVP.onCurrentChanged ----
+Changed(old, new, ca, p) ==
+  IF parent[new] = old THEN p \ txs[new]
+  ELSE LET ob == Anc(old) \ Anc(new)
+           nb == Anc(new) \ Anc(old)
+       IN IF (ob \cup nb) \subseteq ca THEN (p \cup TxsOf(ob)) \ TxsOf(nb)
+          ELSE p                                                          \* ErrNotFoundBlockCache: logged, nothing done
+\* saveNewBlock; c = 1: the block arrives with enough confirms
+InsertBlock(b, c) ==
+  /\ b \notin known /\ parent[b] \in known /\ H(b) > H(stable)
+  /\ LET st2 == IF c = 1 THEN b ELSE stable
+         kn2 == Prune(known \cup {b}, st2)
+         hd2 == NewHead(b, kn2, st2)
+         ca1 == cache \cup {b}
+         ca2 == IF st2 # stable THEN Expire(ca1, st2) ELSE ca1
+         cas == IF PruneFirst THEN ca2 ELSE ca1
+         p2 == IF hd2 # head THEN Changed(head, hd2, cas, pool)
+               ELSE pool \cup {t \in txs[b] : ~Exist(head, t, cas)}
+         nw2 == Max(now, ep[b])
+     IN /\ conf' = IF c = 1 THEN conf \cup {b} ELSE conf
+        /\ stable' = st2 /\ known' = kn2 /\ head' = hd2 /\ cache' = ca2 /\ now' = nw2
+        /\ pool' = p2 \cap Live(nw2)
+  /\ UNCHANGED <<parent, txs, ep>>
+\* a confirm packet that completes the quorum of a stored block above the stable one
+InsertConfirms(b) ==
+  /\ b \in known \ {G} /\ b \notin conf /\ H(b) > H(stable)
+  /\ LET kn2 == Prune(known, b)
+         un == Unconf(kn2, b)
+         hd2 == IF head \notin un THEN Best(un, b) ELSE head                \* UpdateForkForConfirm
+         ca2 == Expire(cache, b)
+         cas == IF PruneFirst THEN ca2 ELSE cache
+         p2 == IF hd2 # head THEN Changed(head, hd2, cas, pool) ELSE pool
+     IN /\ conf' = conf \cup {b} /\ stable' = b /\ known' = kn2 /\ head' = hd2 /\ cache' = ca2
+        /\ pool' = p2 \cap Live(now)
+  /\ UNCHANGED <<parent, txs, ep, now>>
+Next == \/ \E b \in Block, c \in {0, 1} : InsertBlock(b, c)
+        \/ \E b \in Block : InsertConfirms(b)
 Spec == Init /\ [][Next]_vars
 \* the clause, as a state invariant
-PoolIsOffChain == pool = Tx \ OnChain(head)
+PoolIsOffChain == pool = Live(now) \ OnChain(head)
+HeadOK == head \in known /\ stable \in Anc(head) /\ \A b \in known : b \in Anc(stable) \/ stable \in Anc(b)
+\* the branches of any possible fork switch are cached (why pruning after the switch is safe)
+UnconfCached == Unconf(known, stable) \subseteq cache
 ====
